@@ -326,6 +326,11 @@ def check_snapshots(res, pagesize):
         if not got.startswith("inv:ok "):
             res["checks_bad"].append((i, "snap (inv_check on the committed file)", "inv:ok", got[:200]))
             continue
+        if " checkm:ok " not in got[:60]:
+            # the model of DB::check must accept what inv_check accepts (CheckFacts: inv_check ok -> check_m ok); the library's own
+            # check is compared with it through the `check` commands of the history
+            res["checks_bad"].append((i, "snap (model of DB::check on the committed file)", "checkm:ok", got[:200]))
+            continue
         if want is not None:
             j = got.find("rootnext=")
             if got[j:] != want:
